@@ -196,6 +196,8 @@ def len_kinds(driver):
 
 
 def base_kind(kind):
+    if "@" in kind:
+        return kind.split("@")[0]
     return "TT4A" if kind.startswith("LI") else ("LDEP" if kind.startswith("LT") and kind[2:].isdigit() else kind)
 
 
@@ -207,6 +209,147 @@ for _n in (251, 252, 253, 254, 255, 262, 263, 289, 290):
     for _p, _b in (("LI", "TT4A"), ("LT", "LDEP")):
         _m, _mk, _s, _t, _r, _i = KINDS[_b]
         KINDS["%s%d" % (_p, _n)] = (_m, _mk, _len_payload(_n), _t, _r, _i)
+
+
+# ---------------------------------------------------------------------------------------------------
+# target variants (DriverErr!Vars): the exchange of a base kind with an activated target of another bit rate /
+# technology / class -- over everything the driver's sense_tta / sense_ttb / sense_ttf / sense_dep accept.
+# A variant is (base, brty, attr); attr = SEL_RES value (hex) of a Type A target, "psl" = an NFC-DEP target discovered
+# at 106A and switched to brty by PSL_REQ (nfc.dep.Initiator.activate then assigns target.brty), "" otherwise.
+RATES_F = ("212F", "424F")
+DEFAULT_VARIANT = {"TT1": ("106A", ""), "TT1CIU": ("106A", ""), "TT2": ("106A", "00"), "TT4A": ("106A", "20"),
+                   "DEPA": ("106A", "40"), "TT4B": ("106B", ""), "TT3": ("212F", ""), "DEPF": ("424F", ""),
+                   "DEPACT": ("424F", ""), "LTT2": ("106A", "00"), "LTT4": ("106A", "20"), "LTT3": ("212F", ""),
+                   "LDEP": ("106A", "40"), "LDEPRX": ("106A", "40")}
+PN53X_FAM = ("pn531", "pn532", "pn533", "rcs956", "acr122", "arygon")
+
+
+def rates_a(driver):
+    return ("106A", "212A", "424A") if driver in ("rcs380", "udp") else ("106A",)
+
+
+def rates_b(driver):
+    if driver == "pn531":
+        return ()
+    if driver == "pn533":
+        return ("106B", "212B", "424B", "848B")
+    return ("106B", "212B", "424B") if driver in ("rcs380", "udp") else ("106B",)
+
+
+def variants(driver):
+    """every (base, brty, attr) of the driver, the base kinds' own (DEFAULT_VARIANT) included"""
+    sup = SUPPORT[driver]
+    vs = []
+    if "TT1" in sup:
+        vs += [("TT1", r, "") for r in rates_a(driver)]
+    if "TT1CIU" in sup:
+        vs += [("TT1CIU", "106A", "")]
+    vs += [("TT2", r, "00") for r in rates_a(driver)] + [("TT2", "106A", a) for a in ("08", "18")]
+    vs += [("TT4A", r, "20") for r in rates_a(driver)] + [("TT4A", "106A", "60")]
+    vs += [("DEPA", r, "40") for r in rates_a(driver)] + [("DEPA", "106A", "60")] + [("DEPA", r, "psl") for r in RATES_F]
+    vs += [("TT4B", r, "") for r in rates_b(driver)]
+    vs += [("TT3", r, "") for r in RATES_F] + [("DEPF", r, "") for r in RATES_F]
+    if "DEPACT" in sup:
+        vs += [("DEPACT", r, "") for r in ("106A", "212F", "424F")]
+    if "LTT3" in sup:
+        vs += [("LTT3", r, "") for r in RATES_F]
+    if "LDEP" in sup:
+        vs += [("LDEP", "106A", "40")] + [("LDEP", r, "") for r in RATES_F]
+    return vs
+
+
+def variant_name(v):
+    return "%s@%s%s" % (v[0], v[1], "/" + v[2] if v[2] else "")
+
+
+def var_kinds(driver):
+    return [variant_name(v) for v in variants(driver) if DEFAULT_VARIANT[v[0]] != (v[1], v[2])]
+
+
+def variant_of(kind):
+    """(base, brty, attr) of any exchange kind"""
+    if "@" in kind:
+        b, r = kind.split("@")
+        r, _, a = r.partition("/")
+        return b, r, a
+    b = base_kind(kind)
+    return (b,) + DEFAULT_VARIANT[b]
+
+
+SENS_OF_SEL = {"00": b"\x44\x00", "08": b"\x04\x00", "18": b"\x02\x00", "20": b"\x44\x03", "40": b"\x44\x00",
+               "60": b"\x44\x03"}
+SENSF = b"\x01" + IDM + PMM
+
+
+def _variant_target(base, brty, attr):
+    """clf.target as sense() / listen() (and the NFC-DEP activation) leave it for this variant"""
+    dep = dict(atr_res=ATR_RES, atr_req=ATR_REQ)
+    if base == "TT1":
+        return _remote(brty, sens_res=b"\x00\x0c", rid_res=b"\x11\x48\xb2\x56\x54\x00")
+    if base in ("TT2", "TT4A"):
+        return _remote(brty, sens_res=SENS_OF_SEL[attr], sel_res=bytes.fromhex(attr), sdd_res=UID)
+    if base == "DEPA" and attr == "psl":
+        t = _remote("106A", sens_res=b"\x44\x00", sel_res=b"\x40", sdd_res=UID, **dep)
+        t.brty = brty
+        return t
+    if base == "DEPA":
+        return _remote(brty, sens_res=SENS_OF_SEL[attr], sel_res=bytes.fromhex(attr), sdd_res=UID, **dep)
+    if base == "TT4B":
+        return _remote(brty, sensb_res=bytes.fromhex("50e8253eec00000011008185"))
+    if base == "TT3":
+        return _remote(brty, sensf_res=SENSF)
+    if base == "DEPF":
+        return _remote(brty, sensf_res=SENSF, **dep)
+    if base == "DEPACT":
+        return _remote(brty, **dep)
+    if base == "LTT3":
+        return _local(brty, sensf_res=SENSF + b"\x12\xfc", tt3_cmd=b"\x06" + IDM + b"\x01\x0b\x00\x01\x80\x00")
+    if base == "LDEP":
+        return _local(brty, sensf_res=SENSF + b"\x12\xfc", dep_req=b"\xd4\x06\x00\x33", **dep)
+    raise KeyError(base)
+
+
+def _add_variant_kinds():
+    for drv in DRIVERS:
+        for v in variants(drv):
+            name = variant_name(v)
+            if DEFAULT_VARIANT[v[0]] == (v[1], v[2]) or name in KINDS:
+                continue
+            base, brty, attr = v
+            # what is sent and answered: the base kind's; NFC-DEP frames carry the SB byte F0h at 106 kbps only
+            src = base
+            if base in ("DEPA", "DEPACT"):
+                src = "DEPA" if brty == "106A" else ("DEPF" if brty in RATES_F else base)
+            _m, _mk, _s, _t, _r, _i = KINDS[src]
+            KINDS[name] = (KINDS[base][0], (lambda b=base, r=brty, a=attr: _variant_target(b, r, a)), _s, _t, _r, _i)
+
+
+_add_variant_kinds()
+
+
+def place_card(rig, kind):
+    """C13: put the remote device of the kind into the simulated field, so that the chip's RF exchange command
+    is only answered when the driver configured the bit rate / technology the activated target talks (a target that
+    does not understand the frame stays silent: the chip reports its time-out).  Separate from prepare(): other
+    checks share prepare() and run without a card."""
+    base, brty, attr = variant_of(kind)
+    mode = KINDS[kind][0]
+    chip = rig.chip
+    if mode != "initiator":
+        chip.card = None
+        return
+    if rig.driver == "udp":
+        chip.card = brty
+        return
+    active = base == "DEPACT"
+    chip.card = dict(send=brty, recv=brty, active=active)
+    if rig.driver == "rcs380":
+        if base == "TT2" and kind != "TT2":
+            # the tag's answer on the air carries CRC_A; who strips it depends on the check_crc setting
+            chip.air = bytes(KINDS[kind][4])
+    else:
+        # CIU state as the firmware left it after discovery (InListPassiveTarget / InJumpForPSL); "psl": at 106A
+        chip.discovered("106A" if attr == "psl" else brty, active)
 
 
 def udp_reply(kind):
@@ -228,7 +371,7 @@ def prepare(rig, kind):
         chip.rf_rsp = bytes(rf_rsp)
         chip.air = None                 # (C14 sets these for the CRC ownership cases)
         if rig.driver == "rcs380":
-            chip.tg_head = b"\x0c\x00\x03" if tgt.brty == "212F" else b"\x0b\x00\x03"
+            chip.tg_head = bytes([{"212F": 0x0c, "424F": 0x0d}.get(tgt.brty, 0x0b), 0x00, 0x03])
         else:
             chip.rf_in = bytes(rf_in)
             chip.fifo = bytearray()
@@ -240,7 +383,7 @@ def prepare(rig, kind):
 def expected_data(rig, kind):
     """What a fault-free exchange must return (the simulated air's answer as the driver reports it)."""
     mode, mk, send, tmo, rf_rsp, rf_in = KINDS[kind]
-    if kind == "TT2" and rig.driver != "udp":
+    if base_kind(kind) == "TT2" and rig.driver != "udp":
         return TT2_READ
     if kind == "TT1CIU":
         return b"\x03" + bytes(range(8))
